@@ -63,7 +63,8 @@ def space_rules_match(text, rule_id):
     return any(spec_matches(rule_id, r) for r in [r.strip() for r in re_split(r"[,\s]+", text) if r.strip()])
 
 
-def rmv(rules, rule_id):
+@opaque
+def rmv(rules: SeqOf(Str), rule_id: Str) -> Bool:
     """A rule set (modelled as the sequence of its elements) covers the rule: bare `*`, or some spelling names it."""
     return "*" in rules or any(spec_matches(rule_id, p) for p in rules)
 
@@ -125,6 +126,9 @@ class RulesMatchViolation:
     """`ignored_rules` is a set[str]; it is modelled as the sequence of its elements (membership and any() do not
     depend on order or multiplicity)."""
 
+    def reveals(ignored_rules, rule_id):
+        return reveal(rmv, ignored_rules, rule_id)
+
     def value(ignored_rules, rule_id):
         return rmv(ignored_rules, rule_id)
 
@@ -177,4 +181,5 @@ def other_rule_lemma(r, p):
 
 @lemma(props=["C04"], types=dict(rules=SeqOf(Str), r=Str), name="bare-star-means-all-rules")
 def star_lemma(rules, r):
+    reveal(rmv, rules, r)
     return implies("*" in rules, call(RM + "rules_match_violation", rules, r))
